@@ -5,7 +5,7 @@ from fontgen import sfnt, lz4
 
 
 def decoder_clause(ck, tier, seed, tmp, exe):
-    cfgs = ["Lz4_valid.cfg", "Lz4_mut.cfg"] if tier == "quick" else ["Lz4_validbig.cfg", "Lz4_mut.cfg", "Lz4_mutbig.cfg"]
+    cfgs = ["Lz4_valid.cfg", "Lz4_mut.cfg"] if tier == "quick" else ["Lz4_validbig.cfg", "Lz4_mut.cfg"]
     for cfg in cfgs:
         out = os.path.join(tmp, cfg + ".ndjson")
         r = vlib.tlc("Lz4MC.tla", cfg, out_file=out, timeout=7000, coverage=False, heap="24g")
